@@ -4,7 +4,7 @@
    MCIntegrator (a fake ODE integrator, fake c_ops / n_ops) and into the real
    stochastic integrator base class (a fake stepper).  All quantities are
    integers: times in a fixed dyadic unit, probabilities as numerators over
-   2^120, uniform draws k / 2^53 given as k * 2^67. *)
+   2^1200, uniform draws k / 2^53 given as k * 2^1147. *)
 From Coq Require Import List ZArith Bool Arith Lia.
 Import ListNotations.
 From QV Require Import Model.C13.
@@ -19,8 +19,8 @@ Definition YY := (nat * Z)%type.
 Record chan := { c_w : list Z; c_tgt : list (option nat); c_amp : list Z }.
 Record mcprob := { p_h : Z; p_rate : list Z; p_chans : list chan }.
 
-Definition one120 : Z := 2 ^ 120.
-Definition i_prob (y : YY) : Z := 2 ^ (120 - 2 * snd y).
+Definition one120 : Z := 2 ^ 1200.
+Definition i_prob (y : YY) : Z := 2 ^ (1200 - 2 * snd y).
 Definition i_mix (u f : Z) : Z := u + f - (u * f) / one120.
 Definition i_ode_step (p : mcprob) (t : Z) (y : YY) (tt : Z) : Z * YY :=
   (Z.min (t + p_h p) tt, (fst y, snd y + nth (fst y) (p_rate p) 0)).
@@ -60,7 +60,7 @@ Definition i_mci0 : mci Z Z YY :=
 
 Definition i_run_one (p : mcprob) (ls : list (list Z)) (s : mci Z Z YY) (seed : sseq)
     (t0 : Z) (y0 : YY) (ts : list Z) (nj : bool) :=
-  mc_run_one Z Z YY (i_stream (2 ^ 119) ls) 0 one120 Z.leb Z.ltb i_mix
+  mc_run_one Z Z YY (i_stream (2 ^ 1199) ls) 0 one120 Z.leb Z.ltb i_mix
     (length (p_chans p)) i_prob (i_ode_step p) i_find (i_choose p) (i_jump p) i_renorm
     1000 s seed t0 y0 ts nj 0.
 
